@@ -548,11 +548,11 @@ func CompileWithPrefilter(n *nfa.NFA, config Config, pf prefilter.Prefilter) (*D
 // DFAs, this was a major contributor to the 16x memory overhead vs stdlib.
 //
 // The provided PikeVM must be built from the same NFA (or a compatible variant)
-// used to compile this DFA. Thread safety: PikeVM's Search methods use internal
-// state, so the DFA's NFA fallback path is not thread-safe. However, in practice
-// the meta layer always uses per-goroutine SearchState with its own PikeVM for
-// actual searches, and the DFA's embedded PikeVM is only used during DFA-internal
-// fallback within a single goroutine's search path.
+// used to compile this DFA. Thread safety: a *nfa.PikeVM is safe for concurrent use
+// (every search runs on a scratch state taken from the PikeVM's own pool), so the
+// DFA's NFA fallback path may run on any number of goroutines at once, also when
+// the PikeVM is shared with the Engine. SetPikeVM itself is configuration: call it
+// before the DFA is shared.
 func (d *DFA) SetPikeVM(pvm *nfa.PikeVM) {
 	d.pikevm = pvm
 }
